@@ -366,7 +366,7 @@ func (e *Env) MinMax(snap int, name string, max, withValue bool) {
 	e.release(st, c, it, "Min/MaxItem")
 }
 
-func (e *Env) Totals(snap int, name string) {
+func (e *Env) TotalsOp(snap int, name string) {
 	if !e.begin("Totals(snap=%d,%q)", snap, name) {
 		return
 	}
@@ -388,7 +388,7 @@ func (e *Env) Totals(snap int, name string) {
 	if e.faultOutcome("Totals", err, true) {
 		return
 	}
-	wn, wb := m.Totals()
+	wn, wb := e.Totals(m)
 	if err != nil || n != wn || b != wb {
 		e.Failf("totals/wrong", "GetTotals = (%d,%d,%v), model (%d,%d)", n, b, err, wn, wb)
 	}
